@@ -826,7 +826,9 @@ def delete_unused_functions_and_classes(
         funcdef
         for node in core.walk(root, ast.ClassDef)
         for funcdef in core.filter_nodes(node.body, (ast.FunctionDef, ast.AsyncFunctionDef))
-        if f"{node.name}.{funcdef.name}" in preserve or node.bases
+        if f"{node.name}.{funcdef.name}" in preserve
+        or node.bases
+        or (node.name in preserve and parsing.is_magic_method(funcdef))  # Used implicitly by users of the class
     }
 
     for node in core.walk(root, (ast.FunctionDef, ast.AsyncFunctionDef)):
